@@ -8,9 +8,12 @@
       *scratch* attributes, named exactly like the Python attributes some method assigns (`H`, `padmethod`, `_S`,
       `outlen`, `_AES__w`, `count`/`dacc`/`seen`, `p`, …).  `tools/gen_items/objects.py` extracts the assigned
       attributes from the AST of the live source and `Proofs.C10` proves that inventory equal to these field lists.
-    * `step : State → Op → State × Res` is one public operation, also when it raises (the state is then the
-      partially updated one); `probe` tells the one-shot operations (`__call__`, `enc`, `dec`) apart from the
-      streaming / re-configuration operations of the alphabet.
+    * `next : State → Op → State` / `out : State → Op → Res` are one public operation (the object afterwards — also
+      when it raises: the state is then the partially updated one — and what it returns); per kind they are the two
+      components of a function `step`, with a separately written, provably equal `next` where the result need not be
+      evaluated to know the object afterwards (Keccak, AES, the modes: the driver runs long histories through them);
+      `probe` tells the one-shot operations (`__call__`, `enc`, `dec`) apart from the streaming / re-configuration
+      operations of the alphabet.
     * `reconf` is what an operation does to the configuration (identity for everything but `setkey`/`setrate`).
     * the theorems of Proofs.C10 quantify over ALL scratch states, reachable or not, for every kind but the two that keep
       a cache by design (the AES key schedule `_AES__w`, also inside a mode; the key/constant words of the Salsa20/ChaCha
@@ -25,7 +28,9 @@
   TODO(integrator) Skein / Threefish: their models are not in the tree yet.  Hook: add `namespace SkeinO` (state:
   `G`; `__call__` = `_initstate` + `update` + `output`, every UBI/Tweak object is created per call) and
   `namespace ThreefishO` (no scratch: `PureCipher.machine` over the Threefish model) below, handlers in
-  Driver/HistD.lean (`mkSkein`, `mkThreefish`), and switch the `histp` lines of tools/props/C10.py to `hist`.
+  Driver/HistD.lean (two more cases of `hist`), the soundness lemmas in Proofs/Lemmas/ObjectsSound.lean, the per-kind
+  theorems and the two inventory obligations (`inventory_unmodelled` already pins the attribute lists: Skein `G`,
+  Threefish none) in Proofs/C10.lean, and switch the `histp` lines of tools/props/C10.py to `hist`.
 -/
 import Model.Hash
 import Model.Hmac
